@@ -15,6 +15,7 @@ present objects, `delist` is not used.  `NoDangling s`: every reference held by 
 present object resolves.  `Unreachable s id`: no index mentions `id`.
 -/
 import EdbVerif.Lemmas.StoreCmd
+import EdbVerif.Lemmas.StoreErr
 
 namespace EdbVerif.C04
 open EdbVerif.Store
@@ -28,6 +29,20 @@ theorem store_inv (ops : List RawOp) : Inv (runRaw ops State.empty) :=
 theorem store_inv_step (s s' : State) (op : RawOp) (hI : Inv s) (hg : rawOK s op = true)
     (h : step s op = .ok s') : Inv s' :=
   step_inv hI hg h
+
+/-- From a consistent schema a guarded raw operation never trips over a missing index
+    entry: the `KeyError` exits of `immutables.Map.delete` / `m[k]` and the `LookupError`
+    of `get_by_id` in `_update_obj_name`, `_update_refs_to`, `_delete`, `set_obj_field`
+    are unreachable (`ClassesOK`: the reference fields of every recorded class are
+    distinct — `get_object_reference_fields()` is a set). -/
+theorem store_no_internal_error (s : State) (op : RawOp) (e : Err) (hI : Inv s) (hC : ClassesOK s)
+    (hg : rawOK s op = true) (hop : opClsOK op) (h : step s op = .error e) : e.internal = false :=
+  step_no_internal hI hC hg hop h
+
+/-- … and both hypotheses hold in every state a raw history reaches. -/
+theorem store_reachable (ops : List RawOp) (hops : ∀ op ∈ ops, opClsOK op) :
+    Inv (runRaw ops State.empty) ∧ ClassesOK (runRaw ops State.empty) :=
+  ⟨runRaw_inv ops inv_empty, runRaw_classesOK ops hops inv_empty classesOK_empty⟩
 
 /-- A rejected raw operation leaves the schema exactly as it was (by construction:
     the operations are functions into `Except Err State`; stated for the record, the
@@ -126,6 +141,11 @@ theorem store_inv_needs_no_delist :
   have := h.names.name_q 1 exT [.name (.qual 3 0), .nil, .nil] (.qual 3 0) (by decide) (by decide) rfl
   revert this
   decide
+
+/-- … and outside the guard the internal errors do occur: deleting a delisted object
+    trips over the missing name entry -/
+example : ∃ s', step (runCmds (exCmds.take 2) State.empty) (.delist (.qual 3 0)) = .ok s'
+    ∧ (apply s' (.delete 1 exT)).2 = some .keyError := ⟨_, rfl, by decide⟩
 
 /-- … 2: `update_obj` on an object that is not in the schema creates a data tuple
     without a type entry. -/
